@@ -228,8 +228,8 @@ Definition read_field (env : enum_env) (k : pkind) (vt : option tyc) (lst : opti
       | _ => Ok (TAny false [] (get_list LAny lst))
       end
   (* buildMessageFieldSchema: (buf.validate.field) is not looked at for objects and oneofs *)
-  | KdMsgObject => Ok (TObject (match j5 with Some (XObject fl) => fl | _ => false end) None)
-  | KdMsgOneof => Ok (TOneof false (get_list LOneof lst))
+  | KdMsgObject n => Ok (TObject n (match j5 with Some (XObject fl) => fl | _ => false end) None)
+  | KdMsgOneof n => Ok (TOneof n false (get_list LOneof lst))
   | KdMapEntry _ | KdOther => Err "field kind outside the model"
   end.
 
@@ -343,8 +343,8 @@ Definition norm_fty (env : enum_env) (t : fty) : fty :=
   | TKey f e l => TKey f (match e with Some e => Some (norm_entity e) | None => None end) l
   | TTimestamp r l => TTimestamp (match r with Some r => Some (norm_ts r) | None => None end) l
   (* rules messages without content: present = absent *)
-  | TObject fl (Some (OBR None None)) => TObject fl None
-  | TOneof _ l => TOneof false l
+  | TObject n fl (Some (OBR None None)) => TObject n fl None
+  | TOneof n _ l => TOneof n false l
   | t => t
   end.
 
@@ -355,7 +355,7 @@ Definition items_constrained (t : fty) : bool :=
   | TInt _ (Some _) _ | TStr _ (Some _) _ | TBytes (Some _) | TBool (Some _) _ => true
   | TEnum _ _ => true
   | TKey (Some _) _ _ => true
-  | TTimestamp (Some _) _ | TObject _ (Some _) | TOneof true _ => true
+  | TTimestamp (Some _) _ | TObject _ _ (Some _) | TOneof _ true _ => true
   | _ => false
   end.
 
@@ -401,7 +401,7 @@ Definition no_list (t : fty) : bool :=
   match t with
   | TInt _ _ None | TStr _ _ None | TBytes _ | TBool _ None | TEnum _ None | TKey _ _ None
   | TFloat _ _ None | TDate _ None | TDecimal _ None | TTimestamp _ None | TAny _ _ None
-  | TObject _ _ | TOneof _ None => true
+  | TObject _ _ _ | TOneof _ _ None => true
   | _ => false
   end.
 
@@ -410,9 +410,9 @@ Definition rt_fty (m : mode) (t : fty) : bool :=
   (match m with MMap => no_list t | _ => true end) &&
   match m, t with
   | _, TTimestamp (Some r) _ => negb (is_some (tsr_min r)) && negb (is_some (tsr_max r))   (* bounds are not written *)
-  | _, TObject _ (Some r) =>                 (* minProperties / maxProperties are not written *)
+  | _, TObject _ _ (Some r) =>                 (* minProperties / maxProperties are not written *)
       negb (is_some (obr_min r)) && negb (is_some (obr_max r))
-      && match m, t with MSingle, _ => true | _, TObject true _ => false | _, _ => true end
+      && match m, t with MSingle, _ => true | _, TObject _ true _ => false | _, _ => true end
   | _, TStr (Some _) _ _ => false            (* StringField.format is not written *)
   | _, TStr None (Some r) _ => pat_plain (sr_pat r)
   | _, TKey None e l =>
@@ -434,7 +434,7 @@ Definition rt_fty (m : mode) (t : fty) : bool :=
   | MSingle, _ => true
   (* inside an array or a map there is no (j5.ext.v1.field) of the item *)
   | _, TDate (Some _) _ | _, TDecimal (Some _) _ => false
-  | _, TObject true _ => false
+  | _, TObject _ true _ => false
   | _, TAny od ts _ => negb od && match ts with [] => true | _ => false end
   | _, _ => true
   end.
